@@ -183,9 +183,17 @@ def run(ctx):
         "qbase::param::preferred_address::be_preferred_address::{closure#0}": "fed by take(4)/take(16) inside the tuple parser",
         "qbase::param::preferred_address::be_preferred_address::{closure#1}": "fed by take(4)/take(16) inside the tuple parser",
         "qtraversal::nat::msg::TransactionId::from_slice": "fed by the 16-byte transaction id split off in be_packet",
+        "qbase::packet::decrypt::remove_protection_of_long_packet": "payload >= 20 bytes is guaranteed by be_payload's UnderSampling guard (R5); payload_offset <= packet length by construction in be_payload",
+        "qbase::packet::decrypt::remove_protection_of_short_packet": "payload >= 20 bytes is guaranteed by be_packet's UnderSampling guard (R5)",
+        "qbase::packet::decrypt::decrypt_packet": "body_offset = payload_offset + pn length <= payload_offset + 4 <= packet length (R5)",
     }
     slice_sites = {}
-    for b in ws:
+    # header-protection removal and decryption work on the same untrusted bytes before authentication
+    extra_roots = prog.find(r"^qbase::packet::decrypt::(remove_protection_of_long_packet|remove_protection_of_short_packet|decrypt_packet)$")
+    if len(extra_roots) != 3:
+        ctx.ob("R7", "anchor:qbase::packet::decrypt::*", False, "", "expected 3 pre-authentication packet functions, found %d" % len(extra_roots))
+    ws7 = list(ws) + [prog.bodies[x] for x in prog.reachable_bodies(extra_roots) if x in prog.bodies and prog.bodies[x].crate in CRATES and prog.bodies[x] not in ws]
+    for b in ws7:
         for i, t in b.calls():
             if not SLICE_RX.search(callee(t)):
                 continue
